@@ -2,6 +2,5 @@ CONSTANTS
   MaxToks = 1
   Big = FALSE
   NRand = 0
-  Seed = 1
 SPECIFICATION Spec
 INVARIANTS ImplIsRefAll
